@@ -42,6 +42,9 @@ GidMap(old, new) == [g \in Idx(old) |-> IndexOf(new, old[g])]
 (* a per-gid array arrA of the renumbered font is arrB "permuted consistently" *)
 PermutedArray(arrB, arrA, old, new) ==
   Len(arrA) = Len(arrB) /\ \A g \in Idx(new) : arrA[g] = arrB[IndexOf(old, new[g])]
+(* the same with old = <<1, 2, ..., n>> (names numbered by their old glyph id), where IndexOf(old, x) = x *)
+PermutedArrayId(arrB, arrA, new) ==
+  Len(arrA) = Len(arrB) /\ \A g \in Idx(new) : arrA[g] = arrB[new[g]]
 SortSet(S) == [i \in 1..Cardinality(S) |-> CHOOSE x \in S : Cardinality({y \in S : y < x}) = i - 1]
 MapSeq(s, F(_)) == [i \in Idx(s) |-> F(s[i])]
 
